@@ -76,7 +76,7 @@ ApplyGate(psi, g, n) ==
       jj   == g.k \div 2
       xc   == CosG(jj)
       xs   == Mul(Neg(RI), SinG(jj))
-  IN [i \in 1..Dim(n) |->
+  IN TLCEval([i \in 1..Dim(n) |->
        LET i0 == i - 1 IN
        IF ~CtrlOn(i0, g.c, n) THEN psi[i]
        ELSE IF base \in OneTargetBase THEN
@@ -89,7 +89,7 @@ ApplyGate(psi, g, n) ==
                   b2 == BitAt(i0, g.t[2], n)
               IN psi[SetBit(SetBit(i0, g.t[1], n, b2), g.t[2], n, b1) + 1]
        ELSE \* XX(theta) = cos(theta/2) 1 - i sin(theta/2) X(x)X
-              Add(Mul(xc, psi[i]), Mul(xs, psi[FlipBit(FlipBit(i0, g.t[1], n), g.t[2], n) + 1]))]
+              Add(Mul(xc, psi[i]), Mul(xs, psi[FlipBit(FlipBit(i0, g.t[1], n), g.t[2], n) + 1]))])
 
 RECURSIVE RunFrom(_, _, _, _)
 RunFrom(psi, gates, n, from) ==
@@ -97,15 +97,15 @@ RunFrom(psi, gates, n, from) ==
 
 Run(psi, gates, n) == RunFrom(psi, gates, n, 1)
 
-Basis(x0, n) == [i \in 1..Dim(n) |-> IF i = x0 + 1 THEN ROne ELSE RZero]
+Basis(x0, n) == TLCEval([i \in 1..Dim(n) |-> IF i = x0 + 1 THEN ROne ELSE RZero])
 ZeroState(n) == Basis(0, n)
 
 \* unitary as a sequence of columns: U[col][row]
-UnitaryOf(gates, n) == [col \in 1..Dim(n) |-> Run(Basis(col - 1, n), gates, n)]
+UnitaryOf(gates, n) == TLCEval([col \in 1..Dim(n) |-> Run(Basis(col - 1, n), gates, n)])
 
-Inner(a, b, d)   == SumRing([i \in 1..d |-> Mul(Conj(a[i]), b[i])], d)
-Norm2(psi, d)    == SumRing([i \in 1..d |-> Abs2(psi[i])], d)
-Probs(psi, d)    == [i \in 1..d |-> Abs2(psi[i])]
+Inner(a, b, d)   == SumRing(TLCEval([i \in 1..d |-> Mul(Conj(a[i]), b[i])]), d)
+Norm2(psi, d)    == SumRing(TLCEval([i \in 1..d |-> Abs2(psi[i])]), d)
+Probs(psi, d)    == TLCEval([i \in 1..d |-> Abs2(psi[i])])
 
 IsUnitary(U, d) == \A a, b \in 1..d : Inner(U[a], U[b], d) = (IF a = b THEN ROne ELSE RZero)
 
@@ -127,12 +127,12 @@ EquivUpToPhase(U, V, d) ==
           /\ V[p[1]][p[2]] # RZero
           /\ \A a, b \in 1..d : Mul(U[a][b], V[p[1]][p[2]]) = Mul(V[a][b], U[p[1]][p[2]])
 
-Bitstring(i0, n) == [q \in 1..n |-> BitAt(i0, q - 1, n)]
+Bitstring(i0, n) == TLCEval([q \in 1..n |-> BitAt(i0, q - 1, n)])
 
 \* order reversal (qubit 0 least significant), for backends that advertise msq_first
-RevIndex(i0, n) == SumSeq([q \in 1..n |-> BitAt(i0, q - 1, n) * Pow2(q - 1)], n)
-Reorder(psi, n) == [i \in 1..Dim(n) |-> psi[RevIndex(i - 1, n) + 1]]
+RevIndex(i0, n) == SumSeq(TLCEval([q \in 1..n |-> BitAt(i0, q - 1, n) * Pow2(q - 1)]), n)
+Reorder(psi, n) == TLCEval([i \in 1..Dim(n) |-> psi[RevIndex(i - 1, n) + 1]])
 
 \* ---- projective measurement of qubit q with outcome b (unnormalised) ------
-Project(psi, q, b, n) == [i \in 1..Dim(n) |-> IF BitAt(i - 1, q, n) = b THEN psi[i] ELSE RZero]
+Project(psi, q, b, n) == TLCEval([i \in 1..Dim(n) |-> IF BitAt(i - 1, q, n) = b THEN psi[i] ELSE RZero])
 =============================================================================
